@@ -23,7 +23,13 @@ import (
 	"verifmc/explore"
 )
 
-const VerifDir = "/verif"
+// VerifDir is the root of the verification tree (VERIF_DIR, default /verif).
+var VerifDir = func() string {
+	if d := os.Getenv("VERIF_DIR"); d != "" {
+		return d
+	}
+	return "/verif"
+}()
 
 // Check is one registered property check.
 type Check struct {
@@ -42,6 +48,8 @@ type Check struct {
 	Serial bool
 	// CapSeconds overrides the tier deadline.
 	CapSeconds func(tier string) int
+	// ShrinkVectors minimises the choice vector of every violation before recording it.
+	ShrinkVectors bool
 	// Post runs in the coordinator after merging (extra evidence keys, cross-worker oracles).
 	Post func(tier string, ev map[string]any)
 }
@@ -86,6 +94,9 @@ type Run struct {
 	progress    atomic.Int64
 	poison      [][]int
 	seenFlags   map[string]bool
+	probing     bool
+	// Shared carries per-process fixtures built by Init (shared with scratch runs).
+	Shared any
 }
 
 type sample struct {
@@ -166,9 +177,80 @@ func (r *Run) WantSample(x *explore.X) bool {
 	return hash64(fmt.Sprint(r.Seed, x.Choices())) < r.samples[len(r.samples)-1].Rank
 }
 
-// Fail records a violation of clause with a stable signature.
+// Fail records a violation of clause with a stable signature. For checks with ShrinkVectors the
+// choice vector is first minimised (every choice lowered towards the default answer while the same
+// clause still fails) and the violation is recorded under the signature of the minimal case.
 func (r *Run) Fail(x *explore.X, clause, signature string, detail map[string]any) {
-	r.failV(&Violation{Property: r.Check.ID, Clause: clause, Signature: signature, Detail: detail, Vector: x.Choices()})
+	v := &Violation{Property: r.Check.ID, Clause: clause, Signature: signature, Detail: detail, Vector: x.Choices()}
+	if r.Check.ShrinkVectors && !r.probing && !r.Replay {
+		if m := r.shrinkVector(v); m != nil {
+			m.Detail = cloneDetail(m.Detail)
+			m.Detail["found_at_vector"] = fmt.Sprint(v.Vector)
+			v = m
+		}
+	}
+	r.failV(v)
+}
+
+// probe runs the body on exactly vec in a scratch Run and returns the violation of clause, if any.
+func (r *Run) probe(vec []int, clause string) (out *Violation) {
+	defer func() {
+		if p := recover(); p != nil {
+			if _, ok := p.(explore.Diverged); ok {
+				out = nil
+				return
+			}
+			panic(p)
+		}
+	}()
+	sub := newRun(r.Check, r.Tier, r.Seed)
+	sub.probing = true
+	sub.Shared = r.Shared
+	explore.Replay(devBound(r.Check, r.Tier), vec, func(x *explore.X) { r.Check.Body(sub, x) })
+	for _, v := range sub.viol {
+		if v.Clause == clause {
+			return v
+		}
+	}
+	return nil
+}
+
+func (r *Run) shrinkVector(v *Violation) *Violation {
+	vec := append([]int{}, v.Vector...)
+	var best *Violation
+	budget := 150
+	for changed := true; changed && budget > 0; {
+		changed = false
+		for i := len(vec) - 1; i >= 0 && budget > 0; i-- {
+			if i >= len(vec) || vec[i] == 0 {
+				continue
+			}
+			for _, alt := range lowerAlternatives(vec[i]) {
+				cand := append([]int{}, vec...)
+				cand[i] = alt
+				for len(cand) > 0 && cand[len(cand)-1] == 0 {
+					cand = cand[:len(cand)-1]
+				}
+				budget--
+				if m := r.probe(cand, v.Clause); m != nil {
+					vec, best, changed = m.Vector, m, true
+					for len(vec) > 0 && vec[len(vec)-1] == 0 {
+						vec = vec[:len(vec)-1]
+					}
+					break
+				}
+			}
+		}
+	}
+	return best
+}
+
+func lowerAlternatives(c int) []int {
+	out := []int{0}
+	for a := 1; a < c && a < 8; a++ {
+		out = append(out, a)
+	}
+	return out
 }
 
 func (r *Run) failV(v *Violation) {
